@@ -378,6 +378,20 @@ example : run initAcc [[((1 : ℚ), 1), (-1, 3)], [(1, 0)]] ≠ Spec.acc [((1 : 
 example : run (initAcc : Acc ℚ) [[(2, 3), (1, 6)]] = run initAcc [[(1, 3), (1, 3), (1, 6)]] := by
   norm_num [run, step, stepWith, S1, sumL, initAcc]
 
+/-- split invariance, concretely: 3 batches in another order give the state of `exHist` -/
+example : run initAcc exHist = run initAcc [[(3, 1), (2, 5)], [(1, 2)], [(0, 7)]] := by
+  norm_num [exHist, run, step, stepWith, S1, sumL, initAcc]
+example : exHist.flatten.Perm ([[(3, 1), (2, 5)], [(1, 2)], [(0, 7)]] : List (List (ℚ × ℚ))).flatten := by
+  decide
+
+/-- two batch axes, `psum` over two devices and `weights=None`, concretely -/
+example : step2 (initAcc : Acc ℚ) [[(1, 2), (2, 5)], [(0, 7), (3, 1)]] = ⟨6, 5 / 2, 39 / 2⟩ := by
+  norm_num [step2, stepWith, S2, sumL, initAcc]
+example : stepPmap (initAcc : Acc ℚ) [[(1, 2), (2, 5)], [(0, 7), (3, 1)]] = ⟨6, 5 / 2, 39 / 2⟩ := by
+  norm_num [stepPmap, S1, sumL, initAcc]
+example : stepU [3] (initAcc : Acc ℚ) [1, 2, 6] = ⟨3, 3, 14⟩ := by
+  norm_num [stepU, stepWithU, prodDims, S1u, sumL, initAcc]
+
 /-- hypotheses of `std_closed_form` / `update_closed_form_nonneg` are met by a real history -/
 example : ∃ (b : List (ℝ × ℝ)) (h : List (List (ℝ × ℝ))),
     (∀ c ∈ b :: h, ∀ p ∈ c, 0 ≤ p.1) ∧ 0 < Spec.count b ∧ h ≠ [] :=
